@@ -7,7 +7,7 @@ CFG = {
     "required_theorems": ["RpmVerif.C04.split_partition", "RpmVerif.C04.split_bounded", "RpmVerif.C04.split_witness", "RpmVerif.C04.split_declared", "RpmVerif.C04.parser_sees_only_slices", "RpmVerif.C04.parser_alloc_bound",
                           "RpmVerif.C04.parser_calls_prefix", "RpmVerif.C04.parser_calls_faithful", "RpmVerif.C04.parse_depends_on_slices", "RpmVerif.C04.parsePackage_total", "RpmVerif.C04.parseMetadata_total", "RpmVerif.C04.decode_total",
                           "RpmVerif.C04.accepted_count_bounded", "RpmVerif.C04.accepted_sizes_bounded", "RpmVerif.C04.getFileEntries_total",
-                          "RpmVerif.C04.readside_total", "RpmVerif.C04.readerNew_total", "RpmVerif.C04.iterate_total", "RpmVerif.C04.keyIds_total",
+                          "RpmVerif.C04.readside_total", "RpmVerif.C04.readerNew_total", "RpmVerif.C04.iterate_total", "RpmVerif.C04.keyIds_total", "RpmVerif.C04.oneIssuer_u32_overflow",
                           "RpmVerif.C04.iterator_no_runaway", "RpmVerif.C04.collectMem_total"],
     "trivial_branches": [],
     "rule": "every case runs the whole read side (Package::parse, PackageMetadata::parse, all 40 accessors, the Display / Debug impls of Header, IndexEntry, IndexData, Lead and PackageMetadata on the parsed values (stage fmt, into a discarding sink), verify_digests, verify_signature with a "
@@ -28,7 +28,9 @@ CFG = {
     "shrink": False,
     "trusted_base": ["dependencies (pgp packet parser, decompressors, nom) are exercised, not modelled",
                      "the allocation bound is measured by a counting allocator in the harness; the theorem bounds accepted counts and sizes by the input length"],
-    "assumptions": COMMON_ASSUME + ["panic-freedom of dependencies is outside the model (the harness reports any crash with its input)"],
+    "assumptions": COMMON_ASSUME + ["panic-freedom of dependencies is outside the model (the harness reports any crash with its input)",
+                                    "keyIds_total / readside_total: SigScheme.IssuerSmall — the OpenPGP layer never reports 2^32 or more issuers for one signature "
+                                    "(the count goes through usize -> u32 with an unwrap, package.rs:309, 352; oneIssuer_u32_overflow shows the panic branch of the model)"],
     "level_text": "Theorems for EVERY byte string: parsing a package or metadata never reaches a panic outcome (the model makes each partial Rust operation an "
                   "explicit panic and proves it unreachable, incl. Lead::parse's unwrap), decoding never panics for any type/offset/count, every accepted entry's "
                   "count is bounded by the store length and index + store fit inside the input, and no accessor (incl. the unreachable!() arms of the list "
